@@ -116,10 +116,25 @@ pub fn sequences(out: &mut dyn Write, rng: &mut Rng, n: usize) {
                 None => b.legals(),
             };
             let mut in_group = 0u8;
+            let mut shadow_stack = Vec::new();
             for _ in 0..len {
                 let mid = in_group != 0;
-                let k = rng.below(14);
+                let k = rng.below(16);
                 match k {
+                    13 => {
+                        // clone and continue on the clone (also in the middle of a promotion group): the clone must owe exactly what the original owes
+                        ops.push("c".into());
+                        let c = shadow.clone();
+                        shadow_stack.push((std::mem::replace(&mut shadow, c), in_group));
+                    }
+                    14 => {
+                        // back to the original the last clone was taken from
+                        ops.push("b".into());
+                        if let Some((o, g)) = shadow_stack.pop() {
+                            shadow = o;
+                            in_group = g;
+                        }
+                    }
                     0..=5 => {
                         ops.push("n".into());
                         if let Some(m) = shadow.next() {
@@ -163,7 +178,7 @@ pub fn sequences(out: &mut dyn Write, rng: &mut Rng, n: usize) {
                     }
                     _ => ops.push("n".into()),
                 }
-                if ops.last().map(|s| s == "n").unwrap_or(false) && k > 12 {
+                if ops.last().map(|s| s == "n").unwrap_or(false) && k > 14 {
                     if let Some(m) = shadow.next() {
                         if m.piece.is_some() {
                             in_group = (in_group + 1) % 4;
